@@ -469,6 +469,8 @@ pub(crate) struct Inner<K, V, S> {
     weigher: Option<Weigher<K, V>>,
     has_expiration_clock: AtomicBool,
     expiration_clock: RwLock<Option<Clock>>,
+    #[cfg(mini_moka_verif)]
+    verif_tracer: RwLock<Option<crate::verif::Tracer<K>>>,
 }
 
 // functions/methods used by BaseCache
@@ -514,6 +516,8 @@ where
             weigher,
             has_expiration_clock: AtomicBool::new(false),
             expiration_clock: RwLock::new(None),
+            #[cfg(mini_moka_verif)]
+            verif_tracer: RwLock::new(None),
         }
     }
 
@@ -655,6 +659,8 @@ where
         let current_ec = self.entry_count.load();
         let current_ws = self.weighted_size.load();
         let mut counters = EvictionCounters::new(current_ec, current_ws);
+        #[cfg(mini_moka_verif)]
+        self.verif_emit("sync.begin", None, 0, current_ec, current_ws);
 
         while should_sync && calls <= max_repeats {
             let r_len = self.read_op_ch.len();
@@ -695,6 +701,14 @@ where
         debug_assert_eq!(self.weighted_size.load(), current_ws);
         self.entry_count.store(counters.entry_count);
         self.weighted_size.store(counters.weighted_size);
+        #[cfg(mini_moka_verif)]
+        self.verif_emit(
+            "sync.end",
+            None,
+            0,
+            counters.entry_count,
+            counters.weighted_size,
+        );
     }
 
     fn now(&self) -> Instant {
@@ -771,13 +785,25 @@ where
         for _ in 0..count {
             match ch.try_recv() {
                 Ok(Hit(hash, entry, timestamp)) => {
+                    #[cfg(mini_moka_verif)]
+                    self.verif_emit(
+                        "read.hit",
+                        None,
+                        Self::verif_info_id(&entry),
+                        hash,
+                        entry.is_admitted() as u64,
+                    );
                     freq.increment(hash);
                     entry.set_last_accessed(timestamp);
                     if entry.is_admitted() {
                         deqs.move_to_back_ao(&entry);
                     }
                 }
-                Ok(Miss(hash)) => freq.increment(hash),
+                Ok(Miss(hash)) => {
+                    #[cfg(mini_moka_verif)]
+                    self.verif_emit("read.miss", None, 0, hash, 0);
+                    freq.increment(hash)
+                }
                 Err(_) => break,
             }
         }
@@ -797,6 +823,14 @@ where
                     new_weight,
                 }) => self.handle_upsert(kh, entry, old_weight, new_weight, deqs, &freq, counters),
                 Ok(Remove(KvEntry { key: _key, entry })) => {
+                    #[cfg(mini_moka_verif)]
+                    self.verif_emit(
+                        "remove",
+                        Some(&_key),
+                        Self::verif_info_id(&entry),
+                        entry.is_admitted() as u64,
+                        entry.policy_weight() as u64,
+                    );
                     Self::handle_remove(deqs, entry, counters)
                 }
                 Err(_) => break,
@@ -818,6 +852,14 @@ where
         entry.set_dirty(false);
 
         if entry.is_admitted() {
+            #[cfg(mini_moka_verif)]
+            self.verif_emit(
+                "upsert.update",
+                Some(&kh.key),
+                Self::verif_info_id(&entry),
+                old_weight as u64,
+                new_weight as u64,
+            );
             // The entry has been already admitted, so treat this as an update.
             counters.saturating_sub(0, old_weight);
             counters.saturating_add(0, new_weight);
@@ -829,6 +871,14 @@ where
         if self.has_enough_capacity(new_weight, counters) {
             // There are enough room in the cache (or the cache is unbounded).
             // Add the candidate to the deques.
+            #[cfg(mini_moka_verif)]
+            self.verif_emit(
+                "upsert.fit",
+                Some(&kh.key),
+                Self::verif_info_id(&entry),
+                old_weight as u64,
+                new_weight as u64,
+            );
             self.handle_admit(kh, &entry, new_weight, deqs, counters);
             return;
         }
@@ -836,6 +886,14 @@ where
         if let Some(max) = self.max_capacity {
             if new_weight as u64 > max {
                 // The candidate is too big to fit in the cache. Reject it.
+                #[cfg(mini_moka_verif)]
+                self.verif_emit(
+                    "upsert.oversize",
+                    Some(&kh.key),
+                    Self::verif_info_id(&entry),
+                    old_weight as u64,
+                    new_weight as u64,
+                );
                 self.cache.remove(&Arc::clone(&kh.key));
                 return;
             }
@@ -851,11 +909,27 @@ where
                 victim_nodes,
                 skipped_nodes: mut skipped,
             } => {
+                #[cfg(mini_moka_verif)]
+                self.verif_emit(
+                    "upsert.admit",
+                    Some(&kh.key),
+                    Self::verif_info_id(&entry),
+                    old_weight as u64,
+                    new_weight as u64,
+                );
                 // Try to remove the victims from the cache (hash map).
                 for victim in victim_nodes {
                     if let Some((_vic_key, vic_entry)) =
                         self.cache.remove(unsafe { victim.as_ref().element.key() })
                     {
+                        #[cfg(mini_moka_verif)]
+                        self.verif_emit(
+                            "victim.rm",
+                            Some(&_vic_key),
+                            Self::verif_info_id(&vic_entry),
+                            vic_entry.is_admitted() as u64,
+                            vic_entry.policy_weight() as u64,
+                        );
                         // And then remove the victim from the deques.
                         Self::handle_remove(deqs, vic_entry, counters);
                     } else {
@@ -871,6 +945,14 @@ where
                 self.handle_admit(kh, &entry, new_weight, deqs, counters);
             }
             AdmissionResult::Rejected { skipped_nodes: s } => {
+                #[cfg(mini_moka_verif)]
+                self.verif_emit(
+                    "upsert.reject",
+                    Some(&kh.key),
+                    Self::verif_info_id(&entry),
+                    old_weight as u64,
+                    new_weight as u64,
+                );
                 skipped_nodes = s;
                 // Remove the candidate from the cache (hash map).
                 self.cache.remove(&Arc::clone(&kh.key));
@@ -1085,6 +1167,14 @@ where
                 .remove_if(key, |_, v| is_expired_entry_ao(tti, va, v, now));
 
             if let Some((_k, entry)) = maybe_entry {
+                #[cfg(mini_moka_verif)]
+                self.verif_emit(
+                    "expire.ao",
+                    Some(&_k),
+                    Self::verif_info_id(&entry),
+                    entry.is_admitted() as u64,
+                    entry.policy_weight() as u64,
+                );
                 Self::handle_remove_with_deques(deq_name, deq, write_order_deq, entry, counters);
             } else if !self.try_skip_updated_entry(key, deq_name, deq, write_order_deq) {
                 break;
@@ -1151,6 +1241,14 @@ where
                 .remove_if(key, |_, v| is_expired_entry_wo(ttl, va, v, now));
 
             if let Some((_k, entry)) = maybe_entry {
+                #[cfg(mini_moka_verif)]
+                self.verif_emit(
+                    "expire.wo",
+                    Some(&_k),
+                    Self::verif_info_id(&entry),
+                    entry.is_admitted() as u64,
+                    entry.policy_weight() as u64,
+                );
                 Self::handle_remove(deqs, entry, counters);
             } else if let Some(entry) = self.cache.get(key) {
                 if entry.is_dirty() {
@@ -1220,6 +1318,14 @@ where
 
             if let Some((_k, entry)) = maybe_entry {
                 let weight = entry.policy_weight();
+                #[cfg(mini_moka_verif)]
+                self.verif_emit(
+                    "evict",
+                    Some(&_k),
+                    Self::verif_info_id(&entry),
+                    entry.is_admitted() as u64,
+                    weight as u64,
+                );
                 Self::handle_remove_with_deques(DEQ_NAME, deq, write_order_deq, entry, counters);
                 evicted = evicted.saturating_add(weight as u64);
             } else if !self.try_skip_updated_entry(&key, DEQ_NAME, deq, write_order_deq) {
@@ -1247,6 +1353,151 @@ where
             self.has_expiration_clock.store(false, Ordering::SeqCst);
             *exp_clock = None;
         }
+    }
+}
+
+//
+// verification hooks
+//
+#[cfg(mini_moka_verif)]
+impl<K, V, S> Inner<K, V, S> {
+    /// Reports a maintenance event to the installed tracer, if any.
+    #[inline]
+    fn verif_emit(&self, tag: &'static str, key: Option<&K>, info_id: usize, a: u64, b: u64) {
+        if let Some(t) = self.verif_tracer.read().expect("lock poisoned").as_ref() {
+            t(&crate::verif::MaintEvent {
+                tag,
+                key,
+                info_id,
+                a,
+                b,
+            });
+        }
+    }
+
+    fn verif_info_id(entry: &TrioArc<ValueEntry<K, V>>) -> usize {
+        &**entry.entry_info() as *const EntryInfo<K> as usize
+    }
+}
+
+#[cfg(mini_moka_verif)]
+impl<K, V, S> BaseCache<K, V, S>
+where
+    K: Hash + Eq + Send + Sync + 'static,
+    V: Clone + Send + Sync + 'static,
+    S: BuildHasher + Clone + Send + Sync + 'static,
+{
+    pub(crate) fn verif_set_clock(&self, clock: &crate::verif::MockClock) {
+        {
+            let mut exp_clock = self
+                .inner
+                .expiration_clock
+                .write()
+                .expect("lock poisoned");
+            *exp_clock = Some(clock.to_clock());
+            self.inner.has_expiration_clock.store(true, Ordering::SeqCst);
+        }
+        if let Some(hk) = &self.housekeeper {
+            hk.verif_reset_sync_after(self.inner.current_time_from_expiration_clock());
+        }
+    }
+
+    pub(crate) fn verif_set_tracer(&self, tracer: Option<crate::verif::Tracer<K>>) {
+        *self.inner.verif_tracer.write().expect("lock poisoned") = tracer;
+    }
+
+    pub(crate) fn verif_visit_entries(&self, mut f: impl FnMut(&K, &V, crate::verif::EntryMeta)) {
+        for r in self.inner.cache.iter() {
+            let e = r.value();
+            let meta = crate::verif::EntryMeta {
+                weight: e.policy_weight(),
+                last_accessed: e.last_accessed().map(|t| t.verif_std()),
+                last_modified: e.last_modified().map(|t| t.verif_std()),
+                admitted: e.is_admitted(),
+                dirty: e.is_dirty(),
+                info_id: Inner::<K, V, S>::verif_info_id(e),
+                entry_id: &**e as *const ValueEntry<K, V> as usize,
+                ao_node: e
+                    .access_order_q_node()
+                    .map(|n| n.decompose_ptr() as usize)
+                    .unwrap_or(0),
+                wo_node: crate::verif::addr(e.write_order_q_node()),
+            };
+            f(r.key(), &e.value, meta);
+        }
+    }
+
+    /// Walks a deque; `None` if the deques mutex is currently held.
+    /// `which`: 0 window, 1 probation, 2 protected, 3 write order.
+    pub(crate) fn verif_dump_deque(
+        &self,
+        which: usize,
+        mut visit: impl FnMut(&K),
+    ) -> Option<crate::verif::DequeDump> {
+        let d = match self.inner.deques.try_lock() {
+            Ok(d) => d,
+            Err(_) => return None,
+        };
+        let id = |i: &EntryInfo<K>| i as *const EntryInfo<K> as usize;
+        Some(match which {
+            0 => crate::verif::dump_deque(
+                &d.window,
+                |e| {
+                    let i = e.entry_info();
+                    (id(i), i.last_accessed().map(|t| t.verif_std()))
+                },
+                |e| visit(e.key()),
+            ),
+            1 => crate::verif::dump_deque(
+                &d.probation,
+                |e| {
+                    let i = e.entry_info();
+                    (id(i), i.last_accessed().map(|t| t.verif_std()))
+                },
+                |e| visit(e.key()),
+            ),
+            2 => crate::verif::dump_deque(
+                &d.protected,
+                |e| {
+                    let i = e.entry_info();
+                    (id(i), i.last_accessed().map(|t| t.verif_std()))
+                },
+                |e| visit(e.key()),
+            ),
+            _ => crate::verif::dump_deque(
+                &d.write_order,
+                |e| {
+                    let i = e.verif_entry_info();
+                    (id(i), i.last_modified().map(|t| t.verif_std()))
+                },
+                |e| visit(e.key()),
+            ),
+        })
+    }
+
+    pub(crate) fn verif_freq(&self, hash: u64) -> u8 {
+        self.inner
+            .frequency_sketch
+            .read()
+            .expect("lock poisoned")
+            .frequency(hash)
+    }
+
+    pub(crate) fn verif_sketch_state(&self) -> crate::verif::SketchState {
+        self.inner
+            .frequency_sketch
+            .read()
+            .expect("lock poisoned")
+            .verif_state(self.inner.frequency_sketch_enabled.load(Ordering::Acquire))
+    }
+
+    pub(crate) fn verif_valid_after(&self) -> Option<std::time::Instant> {
+        self.inner.valid_after().map(|t| t.verif_std())
+    }
+
+    /// (read channel length, write channel length)
+    pub(crate) fn verif_channel_lens(&self) -> (usize, usize) {
+        (self.read_op_ch.len(), self.write_op_ch.len())
     }
 }
 
